@@ -688,8 +688,8 @@ theorem bodyCombos_mem (bs : Variants) (mt : String) (v : Json) (h : HasV bs mt 
   simp only [bodyCombos, List.mem_flatMap, List.mem_map]
   exact ⟨(mt, vs), this, v, hv, rfl⟩
 
-theorem topValues_extracted (srcs : List Source) (s : Source) (hs : s ∈ srcs) (v : Json) (hv : v ∈ topValues s) :
-    s.mk' v ∈ extractTopLevel srcs := by
+theorem topValues_extracted (vRef : Variant) (srcs : List Source) (s : Source) (hs : s ∈ srcs) (v : Json)
+    (hv : v ∈ topValues vRef s) : s.mk' v ∈ extractTopLevel vRef srcs := by
   simp only [extractTopLevel, List.mem_flatMap, List.mem_map]
   exact ⟨s, hs, v, hv, rfl⟩
 
@@ -719,5 +719,248 @@ theorem Carries_dropHeaders (bad : List String) (ps : Containers) (b : Option (S
     · have : (c == "headers") = false := by simp [hc]
       simp only [this, Bool.false_eq_true, if_false]
       exact h2
+
+/-! ### create_test phases -/
+
+theorem createPhases_not_fuzzing (modes : List Mode) (phases : List HPhase) (h : modes.contains .fuzzing = false) :
+    (createPhases modes phases).contains .reuse = false ∧ (createPhases modes phases).contains .generate = false := by
+  unfold createPhases
+  generalize dropExplain phases = p1
+  simp only [h, Bool.not_false, Bool.true_and]
+  split
+  · constructor <;> simp [List.mem_filter]
+  · rename_i hc
+    simp only [Bool.or_eq_true, not_or, Bool.not_eq_true] at hc
+    exact ⟨hc.2, hc.1⟩
+
+theorem filter_keeps_explicit (q : HPhase → Bool) (hq : q .explicit = true) (l : List HPhase) :
+    (l.filter q).contains .explicit = l.contains .explicit := by
+  induction l with
+  | nil => rfl
+  | cons x xs ih =>
+    by_cases hx : q x = true
+    · simp only [List.filter_cons, hx, if_true, List.contains_cons, ih]
+    · have : x ≠ .explicit := fun e => hx (e ▸ hq)
+      simp only [List.filter_cons, hx, List.contains_cons]
+      cases x <;> simp_all
+
+theorem createPhases_explicit (modes : List Mode) (phases : List HPhase) :
+    (createPhases modes phases).contains .explicit = phases.contains .explicit := by
+  have h0 : (dropExplain phases).contains .explicit = phases.contains .explicit := by
+    unfold dropExplain
+    split
+    · exact filter_keeps_explicit _ (by decide) _
+    · rfl
+  unfold createPhases
+  simp only
+  split
+  · rw [filter_keeps_explicit _ (by decide), h0]
+  · exact h0
+
+theorem registers_of_explicit (mode : Mode) (phases : List HPhase) (hmode : mode = .examples)
+    (hex : HPhase.explicit ∈ phases) : registersExamples [mode] (createPhases [mode] phases) true = true := by
+  subst hmode
+  have : phases.contains .explicit = true := by simpa using hex
+  simp only [registersExamples, createPhases_explicit, this]
+  decide
+
+/-! ### the Hypothesis contract -/
+
+theorem runUntil_all {α : Type} (rmb : Bool) (verdict : α → Verdict) (l : List α)
+    (h : ∀ x ∈ l, goesOn rmb (verdict x) = true) : runUntil rmb verdict l = l := by
+  induction l with
+  | nil => rfl
+  | cons x xs ih =>
+    simp only [runUntil, h x (by simp), if_true]
+    rw [ih (fun y hy => h y (List.mem_cons_of_mem _ hy))]
+
+theorem runUntil_subset {α : Type} (all : Bool) (verdict : α → Verdict) (l : List α) :
+    ∀ x ∈ runUntil all verdict l, x ∈ l := by
+  induction l with
+  | nil => intro x hx; simp [runUntil] at hx
+  | cons y ys ih =>
+    intro x hx
+    simp only [runUntil] at hx
+    split at hx
+    · rcases List.mem_cons.mp hx with h | h
+      · exact h ▸ List.mem_cons_self
+      · exact List.mem_cons_of_mem _ (ih x h)
+    · simp at hx
+      exact hx ▸ List.mem_cons_self
+
+/-- without `reuse` and `generate` only explicit examples run -/
+theorem hypRun_explicit_only {α : Type} (phases : List HPhase) (rmb : Bool) (explicit db gen : List α)
+    (verdict : α → Verdict) (h1 : phases.contains .reuse = false) (h2 : phases.contains .generate = false) :
+    (hypRun phases rmb explicit db gen verdict).engineRan = [] ∧
+    (hypRun phases rmb explicit db gen verdict).explicitRan =
+      (if phases.contains .explicit then runUntil rmb verdict explicit else []) := by
+  unfold hypRun
+  simp only [h1, h2, Bool.or_false, Bool.not_false, if_true]
+  split <;> split <;> simp
+
+theorem hypRun_nothing {α : Type} (phases : List HPhase) (rmb : Bool) (db gen : List α)
+    (verdict : α → Verdict) (h1 : phases.contains .reuse = false) (h2 : phases.contains .generate = false) :
+    hypRun phases rmb [] db gen verdict = ⟨[], [], .skipped⟩ := by
+  have hw : worst ([] : List Verdict) = .returned := by decide
+  have h1' : HPhase.reuse ∉ phases := by simpa using h1
+  have h2' : HPhase.generate ∉ phases := by simpa using h2
+  unfold hypRun
+  simp [h1', h2', runUntil, hw]
+
+/-! ### run_test -/
+
+theorem markStep_error_stays (isSet guarded : Bool) (rep : Report) (acc : Status × List Report) (h : acc.1 = .error) :
+    (markStep isSet guarded rep acc).1 = .error := by
+  unfold markStep
+  split <;> simp [h]
+
+theorem markStep_set_error (guarded : Bool) (rep : Report) (acc : Status × List Report) :
+    (markStep true guarded rep acc).1 = .error := by
+  unfold markStep
+  split
+  · rfl
+  · rename_i h
+    cases guarded <;> simp_all
+
+theorem markStep_mono (isSet guarded : Bool) (rep r : Report) (acc : Status × List Report) (h : r ∈ acc.2) :
+    r ∈ (markStep isSet guarded rep acc).2 := by
+  unfold markStep
+  split
+  · simp [h]
+  · exact h
+
+theorem markStep_unguarded (rep : Report) (acc : Status × List Report) :
+    (markStep true false rep acc).1 = .error ∧ rep ∈ (markStep true false rep acc).2 := by
+  simp [markStep]
+
+theorem markStep_guarded_fires (rep : Report) (acc : Status × List Report) (h : acc.1 ≠ .error) :
+    (markStep true true rep acc).1 = .error ∧ rep ∈ (markStep true true rep acc).2 := by
+  simp [markStep, h]
+
+theorem markStep_unset (guarded : Bool) (rep : Report) (acc : Status × List Report) :
+    markStep false guarded rep acc = acc := by
+  simp [markStep]
+
+theorem lastInvalid_cons (c : ECase) (rest : List ECase) :
+    lastInvalid (c :: rest) = if lastInvalid rest = [] then c.invalidHeaders else lastInvalid rest := by
+  simp only [lastInvalid]
+  cases lastInvalid rest <;> simp
+
+theorem lastInvalid_ne_nil (cases : List ECase) (c : ECase) (hc : c ∈ cases) (hbad : c.invalidHeaders ≠ []) :
+    lastInvalid cases ≠ [] := by
+  induction cases with
+  | nil => simp at hc
+  | cons x rest ih =>
+    rw [lastInvalid_cons]
+    rcases List.mem_cons.mp hc with h | h
+    · subst h
+      split
+      · exact hbad
+      · assumption
+    · have := ih h
+      simp [this]
+
+theorem invalidMark_repaired_mem (cases : List ECase) (c : ECase) (n : String) (hc : c ∈ cases)
+    (hn : n ∈ c.invalidHeaders) : n ∈ invalidMark .repaired cases := by
+  simp only [invalidMark, List.mem_flatMap]
+  exact ⟨c, hc, hn⟩
+
+
+/-! ### `Json.beq` is equality (needed for the keys of `unique_inputs`) -/
+mutual
+theorem beq_eq : ∀ a b : Json, Json.beq a b = true → a = b
+  | .null, b, h => by cases b <;> simp_all [Json.beq]
+  | .bool x, b, h => by cases b <;> simp_all [Json.beq]
+  | .num m e, b, h => by cases b <;> simp_all [Json.beq]
+  | .str s, b, h => by cases b <;> simp_all [Json.beq]
+  | .arr xs, b, h => by
+    cases b <;> simp_all [Json.beq]
+    exact beqList_eq _ _ h
+  | .obj xs, b, h => by
+    cases b <;> simp_all [Json.beq]
+    exact beqKvs_eq _ _ h
+theorem beqList_eq : ∀ xs ys : List Json, Json.beqList xs ys = true → xs = ys
+  | [], ys, h => by cases ys <;> simp_all [Json.beqList]
+  | x :: xs, ys, h => by
+    cases ys with
+    | nil => simp_all [Json.beqList]
+    | cons y ys =>
+      simp [Json.beqList] at h
+      rw [beq_eq x y h.1, beqList_eq xs ys h.2]
+theorem beqKvs_eq : ∀ xs ys : List (String × Json), Json.beqKvs xs ys = true → xs = ys
+  | [], ys, h => by cases ys <;> simp_all [Json.beqKvs]
+  | (k, x) :: xs, ys, h => by
+    cases ys with
+    | nil => simp_all [Json.beqKvs]
+    | cons y ys =>
+      obtain ⟨k', y⟩ := y
+      simp [Json.beqKvs] at h
+      rw [h.1.1, beq_eq x y h.1.2, beqKvs_eq xs ys h.2]
+end
+
+mutual
+theorem beq_refl : ∀ a : Json, Json.beq a a = true
+  | .null => by simp [Json.beq]
+  | .bool _ => by simp [Json.beq]
+  | .num _ _ => by simp [Json.beq]
+  | .str _ => by simp [Json.beq]
+  | .arr xs => by simp [Json.beq]; exact beqList_refl xs
+  | .obj kvs => by simp [Json.beq]; exact beqKvs_refl kvs
+theorem beqList_refl : ∀ xs : List Json, Json.beqList xs xs = true
+  | [] => by simp [Json.beqList]
+  | x :: xs => by simp [Json.beqList, beq_refl x, beqList_refl xs]
+theorem beqKvs_refl : ∀ xs : List (String × Json), Json.beqKvs xs xs = true
+  | [] => by simp [Json.beqKvs]
+  | (k, x) :: xs => by simp [Json.beqKvs, beq_refl x, beqKvs_refl xs]
+end
+
+instance : LawfulBEq Json where
+  eq_of_beq h := beq_eq _ _ h
+  rfl := beq_refl _
+
+theorem sameReq_eq (a b : ECase) (h : sameReq a b = true) : a.params = b.params ∧ a.body = b.body := by
+  simp only [sameReq, Bool.and_eq_true] at h
+  exact ⟨eq_of_beq h.1, eq_of_beq h.2⟩
+
+theorem sameReq_refl (a : ECase) : sameReq a a = true := by simp [sameReq]
+
+theorem dedupKey_subset (key : ECase → ECase) (l : List ECase) : ∀ seen, ∀ c ∈ dedupKey key seen l, c ∈ l := by
+  induction l with
+  | nil => intro seen c hc; simp [dedupKey] at hc
+  | cons d rest ih =>
+    intro seen c hc
+    simp only [dedupKey] at hc
+    split at hc
+    · exact List.mem_cons_of_mem _ (ih _ c hc)
+    · rcases List.mem_cons.mp hc with h | h
+      · exact h ▸ List.mem_cons_self
+      · exact List.mem_cons_of_mem _ (ih _ c h)
+
+theorem dedupKey_covers (key : ECase → ECase) (l : List ECase) :
+    ∀ seen, ∀ c ∈ l, ∃ c' ∈ seen ++ dedupKey key seen l, sameReq (key c') (key c) = true := by
+  induction l with
+  | nil => intro seen c hc; simp at hc
+  | cons d rest ih =>
+    intro seen c hc
+    simp only [dedupKey]
+    by_cases hs : seen.any (fun x => sameReq (key x) (key d)) = true
+    · simp only [hs, if_true]
+      rcases List.mem_cons.mp hc with h | h
+      · subst h
+        obtain ⟨x, hx, hxe⟩ := List.any_eq_true.mp hs
+        exact ⟨x, List.mem_append_left _ hx, hxe⟩
+      · exact ih seen c h
+    · have hs' : seen.any (fun x => sameReq (key x) (key d)) = false := by simpa using hs
+      simp only [hs', Bool.false_eq_true, if_false]
+      rcases List.mem_cons.mp hc with h | h
+      · subst h
+        exact ⟨c, by simp, sameReq_refl _⟩
+      · obtain ⟨c', hc', he⟩ := ih (d :: seen) c h
+        refine ⟨c', ?_, he⟩
+        simp only [List.mem_append, List.mem_cons] at hc' ⊢
+        rcases hc' with (h1 | h1) | h1
+        · exact Or.inr (Or.inl h1)
+        · exact Or.inl h1
+        · exact Or.inr (Or.inr h1)
 
 end SV.Proofs.C17
